@@ -5,12 +5,13 @@ import TempestVerif.Lemmas.StateMgr
   changes any later result; committed history is append-only.
 
   Model: `Model/StateMgr.lean` (heap of arrays, `StateManager` as it manipulates references; the code as of the
-  `fix:` commits that made `to_dict()` and `compute_results()` hand out copies).  Vocabulary (Lemmas/StateMgr.lean):
+  `fix:` commits that made `to_dict()` / `compute_results()` hand out copies and `update_from_dict()` / `from_dict()`
+  store copies).  Vocabulary (Lemmas/StateMgr.lean):
     reach s        addresses reachable from `_current ∪ _history ∪ _results_dict`
     s.escaped      (ghost) addresses of arrays the caller holds: returned by an accessor, or created by the caller
-    s.imported     (ghost) addresses the caller holds that were stored by reference into `_current` at its request
-                   (`set_current/update_current(copy=False)`, "_current" section of `update_from_dict`)
-    s.importedH    (ghost) the same for `_history`: only the "_history" section of `update_from_dict`
+                   (this includes every array inside a dictionary the caller passes to `update_from_dict`)
+    s.imported     (ghost) addresses the caller holds that were stored by reference into `_current` at its request:
+                   `set_current/update_current(copy=False)` only
     poke / scribble  the caller overwrites an array it holds
     observe s      payloads of everything readable: current values, every history entry, `compute_results()`,
                    `compute_logw_and_logz()`
@@ -18,24 +19,29 @@ import TempestVerif.Lemmas.StateMgr
 namespace Props.C17
 open Model.StateMgr
 
-/-- every internally reachable array is allocated, and it is not one the caller holds — except those the caller
-    itself asked to be stored by reference:  current ∩ escaped ⊆ imported,  (history ∪ cache) ∩ escaped ⊆ importedH.
-    In particular an array passed with `copy=False` may be shared with `_current`, never with `_history`. -/
+/-- every internally reachable array is allocated, and it is not one the caller holds — except, in `_current` only,
+    those the caller itself asked to be stored by reference with `copy=False`:
+      current ∩ escaped ⊆ imported,      (history ∪ cache) ∩ escaped = ∅.
+    Arrays that the caller passes into `update_from_dict` (new ones, or the arrays of an exported dictionary) are
+    caller-held addresses like any other: they are never reachable afterwards. -/
 def Inv (s : State) : Prop :=
   (∀ a : Nat, a ∈ reach s → a < s.next) ∧
   (∀ a : Nat, a ∈ s.escaped → a < s.next) ∧
   (∀ a : Nat, a ∈ dictAddrs s.current → a ∈ s.escaped → a ∈ s.imported) ∧
-  (∀ a : Nat, a ∈ histAddrs s.history ∨ a ∈ cacheAddrs s.cache → a ∈ s.escaped → a ∈ s.importedH)
+  (∀ a : Nat, a ∈ histAddrs s.history ∨ a ∈ cacheAddrs s.cache → a ∉ s.escaped)
 
 theorem C17_inv_iff (s : State) : Inv s ↔ Model.StateMgr.Inv s :=
   ⟨fun h => ⟨h.1, h.2.1, h.2.2.1, h.2.2.2⟩, fun h => ⟨h.reach_lt, h.esc_lt, h.sep, h.sepH⟩⟩
 
-/-- the form asked for: reachable ∩ escaped ⊆ imported ∪ importedH -/
+/-- the form asked for: reachable ∩ escaped ⊆ imported, and the shared array is then reachable from `_current` only -/
 theorem C17_inv_sep (s : State) (h : Inv s) (a : Nat) (hr : a ∈ reach s) (he : a ∈ s.escaped) :
-    a ∈ s.imported ∨ a ∈ s.importedH := by
-  rcases mem_reach.1 hr with h1 | h1
-  · exact Or.inl (h.2.2.1 a h1 he)
-  · exact Or.inr (h.2.2.2 a h1 he)
+    a ∈ s.imported ∧ a ∈ dictAddrs s.current ∧ a ∉ histAddrs s.history ∧ a ∉ cacheAddrs s.cache := by
+  have hh : a ∉ histAddrs s.history ∧ a ∉ cacheAddrs s.cache :=
+    ⟨fun x => h.2.2.2 a (Or.inl x) he, fun x => h.2.2.2 a (Or.inr x) he⟩
+  rcases mem_reach.1 hr with h1 | h1 | h1
+  · exact ⟨h.2.2.1 a h1 he, h1, hh⟩
+  · exact absurd h1 hh.1
+  · exact absurd h1 hh.2
 
 /-- what `reach` means -/
 theorem C17_reach_iff (s : State) (a : Nat) :
@@ -67,26 +73,25 @@ theorem C17_returned_is_fresh (s : State) (o : Op) (b : Nat) (hb : b ∈ (step s
 
 /-- no returned array is reachable from internal state afterwards (as long as the caller never opted into sharing) -/
 theorem C17_returned_not_internal (s : State) (o : Op) (h : Inv s) (hopt : o.optIn = false) (himp : s.imported = [])
-    (himpH : s.importedH = []) (b : Nat) (hb : b ∈ (step s o).2.addrs) : b ∉ reach (step s o).1 := by
+    (b : Nat) (hb : b ∈ (step s o).2.addrs) : b ∉ reach (step s o).1 := by
   have hI := step_inv s o ((C17_inv_iff s).1 h)
-  have hni : o.isImport = false := by cases o <;> simp_all [Op.isImport, Op.optIn]
   exact not_reach_of_inv hI (step_res_escaped s o b hb) (by rw [step_imported s o hopt, himp]; simp)
-    (by rw [step_importedH s o hni, himpH]; simp)
 
-/-- overwriting an array the caller holds — other than one it asked to share — changes no observable read -/
+/-- overwriting an array the caller holds — other than one it stored with `copy=False` — changes no observable read -/
 theorem C17_read_indep_of_scribble (s : State) (a : Addr) (p : Content) (h : Inv s)
-    (hesc : a ∈ s.escaped) (himp : a ∉ s.imported) (himpH : a ∉ s.importedH) :
+    (hesc : a ∈ s.escaped) (himp : a ∉ s.imported) :
     observe (step s (.scribble a p)).1 = observe s := by
   have hI := (C17_inv_iff s).1 h
   have hstep : (step s (.scribble a p)).1 = poke s a (some p) := by
     simp [step, hesc, poke]
   rw [hstep]
-  exact observe_poke (hI.esc_lt a hesc) (not_reach_of_inv hI hesc himp himpH)
+  exact observe_poke (hI.esc_lt a hesc) (not_reach_of_inv hI hesc himp)
 
-/-- even an array that was stored with `copy=False` is never shared with committed history or with the results:
-    overwriting it leaves every history read, `compute_results()` and `compute_logw_and_logz()` unchanged -/
+/-- NO array the caller holds — not even one stored with `copy=False`, not one it passed into `update_from_dict` — is
+    shared with committed history or with the results: overwriting it leaves every history read, `compute_results()`
+    and `compute_logw_and_logz()` unchanged -/
 theorem C17_history_indep_of_scribble (s : State) (a : Addr) (p : Content) (h : Inv s)
-    (hesc : a ∈ s.escaped) (himpH : a ∉ s.importedH) :
+    (hesc : a ∈ s.escaped) :
     (observe (step s (.scribble a p)).1).history = (observe s).history ∧
     (observe (step s (.scribble a p)).1).results = (observe s).results ∧
     (observe (step s (.scribble a p)).1).logw = (observe s).logw := by
@@ -94,8 +99,8 @@ theorem C17_history_indep_of_scribble (s : State) (a : Addr) (p : Content) (h : 
   have hstep : (step s (.scribble a p)).1 = poke s a (some p) := by
     simp [step, hesc, poke]
   rw [hstep]
-  exact observe_poke_hist (hI.esc_lt a hesc) (fun hr => himpH (hI.sepH a (Or.inl hr) hesc))
-    (fun hr => himpH (hI.sepH a (Or.inr hr) hesc))
+  exact observe_poke_hist (hI.esc_lt a hesc) (fun hr => hI.sepH a (Or.inl hr) hesc)
+    (fun hr => hI.sepH a (Or.inr hr) hesc)
 
 /-- `compute_logw_and_logz` is an accessor like the others: what it returns is a new array, recorded as held by the
     caller, not reachable from internal state (in particular not from any cache), and calling it changes no read -/
@@ -111,25 +116,54 @@ theorem C17_logw_is_fresh (s : State) (beta : Int) (h : Inv s) :
   have := hI.reach_lt _ this
   omega
 
-/-- `imported` grows only through the opt-in operations, `importedH` only through `update_from_dict` … -/
-theorem C17_copy_false_is_opt_in (s : State) (o : Op) :
-    (o.optIn = false → (step s o).1.imported = s.imported) ∧
-    (o.isImport = false → (step s o).1.importedH = s.importedH) :=
-  ⟨step_imported s o, step_importedH s o⟩
+/-- `imported` grows only through the opt-in operations … -/
+theorem C17_copy_false_is_opt_in (s : State) (o : Op) (ho : o.optIn = false) : (step s o).1.imported = s.imported :=
+  step_imported s o ho
 
-/-- … which are exactly `set_current(copy=False)`, `update_current(copy=False)` and `update_from_dict` -/
+/-- … which are exactly `set_current(copy=False)` and `update_current(copy=False)` (`update_from_dict` is not one) -/
 theorem C17_opt_in_ops (o : Op) :
-    o.optIn = true ↔ (∃ k x, o = .setCurrent k x false) ∨ (∃ kvs, o = .updateCurrent kvs false) ∨
-      (∃ c h, o = .updateFromDict c h) := by
+    o.optIn = true ↔ (∃ k x, o = .setCurrent k x false) ∨ (∃ kvs, o = .updateCurrent kvs false) := by
   cases o <;> simp [Op.optIn]
 
-/-- Combined statement.  Take any operation sequence in which the caller never opts into sharing and passes only
-    `None`, scalars or arrays it creates for the call, interleaved with arbitrary in-place writes to arrays it holds
-    (`scribble`, any address, any payload, at any time).  Then everything the caller ever sees — the payload of every
-    returned value and all observable reads after every operation — is exactly what it sees when the writes are left out. -/
-theorem C17_full (ops : List Op) (h : ∀ o ∈ ops, o.isScribble = true ∨ o.clean = true) :
+/-- `update_from_dict` (hence `from_dict`) stores copies.  Every array in the dictionary the caller passes — one it
+    obtained earlier (`held`, e.g. the arrays of an exported dictionary) or one it creates for the call — is a
+    caller-held address afterwards, `imported` does not grow, and no caller-held address is reachable from `_history`
+    or the cache; one reachable from `_current` was put there by an earlier `copy=False`. -/
+theorem C17_import_never_aliases (s : State) (cur : Option (List (Key × Arg))) (hist : Option (List (Key × List Arg)))
+    (h : Inv s) (hok : (step s (.updateFromDict cur hist)).2 = .unit) :
+    (step s (.updateFromDict cur hist)).1.imported = s.imported ∧
+    (∀ a : Nat, a ∈ (Op.updateFromDict cur hist).heldAddrs → a ∈ (step s (.updateFromDict cur hist)).1.escaped) ∧
+    (∀ a : Nat, a ∈ (step s (.updateFromDict cur hist)).1.escaped →
+      a ∉ histAddrs (step s (.updateFromDict cur hist)).1.history ∧
+      a ∉ cacheAddrs (step s (.updateFromDict cur hist)).1.cache ∧
+      (a ∈ dictAddrs (step s (.updateFromDict cur hist)).1.current → a ∈ s.imported)) := by
+  have hI' := step_inv s (.updateFromDict cur hist) ((C17_inv_iff s).1 h)
+  have himp := step_imported s (.updateFromDict cur hist) rfl
+  refine ⟨himp, fun a ha => ?_, fun a ha => ⟨fun x => hI'.sepH a (Or.inl x) ha, fun x => hI'.sepH a (Or.inr x) ha,
+    fun x => by rw [← himp]; exact hI'.sep a x ha⟩⟩
+  apply step_escaped_mono
+  by_cases hl : (dictLegal s.escaped (entries cur) && histLegal s.escaped (entries hist)) = true
+  · simp only [Bool.and_eq_true] at hl
+    simp only [Op.heldAddrs, List.mem_append] at ha
+    rcases ha with ha | ha
+    · exact dictLegal_held hl.1 a ha
+    · exact histLegal_held hl.2 a ha
+  · simp [step, hl] at hok
+
+/-- Combined statement.  Take any operation sequence in which the caller never stores with `copy=False` and never passes
+    back in an array after having overwritten it (`okSeq`; everything else is allowed: new arrays, arrays it obtained
+    earlier, re-importing an exported dictionary), interleaved with arbitrary in-place writes to arrays it holds
+    (`scribble`, any address, any payload, at any time — in particular to the exported dictionary after importing it).
+    Then everything the caller ever sees — the payload of every returned value and all observable reads after every
+    operation — is exactly what it sees when the writes are left out. -/
+theorem C17_full (ops : List Op) (h : okSeq [] ops = true) :
     trace init ops = trace init (ops.filter (fun o => !o.isScribble)) :=
-  trace_pokeMany ops init [] init_inv rfl rfl (fun _ h => by cases h) h
+  trace_pokeMany ops init [] [] init_inv rfl (fun _ h => by cases h) h
+
+/-- special case: the caller passes only `None`, scalars or arrays it creates for the call -/
+theorem C17_full_clean (ops : List Op) (h : ∀ o ∈ ops, o.isScribble = true ∨ o.clean = true) :
+    trace init ops = trace init (ops.filter (fun o => !o.isScribble)) :=
+  C17_full ops (okSeq_of_clean h [])
 
 theorem C17_commitKeys (k : Key) : k ∈ commitKeys ↔ k ∈ currentKeys ∧ k ∈ historyKeys := by
   simp [commitKeys]
@@ -155,7 +189,7 @@ theorem C17_commit_appends_one (s : State) (strict : Bool) (h : Inv s)
     hI.reach_lt b (mem_reach.2 (Or.inr (Or.inl (mem_histAddrs.2 ⟨k, l, lookup_mem hl, mem_listAddrs.1 hb⟩))))
   have hnd : commitKeys.Nodup := by decide
   obtain ⟨ext, e1, _, e3⟩ := commitLoop_history hnd s hcur k
-  have hfr := (commitLoop_frame commitKeys s).2.2.2.2.1
+  have hfr := (commitLoop_frame commitKeys s).2.2.2.2
   by_cases hc : (strict && (isNone (lookup "beta" s.current) || isNone (lookup "logl" s.current))) = true
   · simp [step, hc] at hok
   · have hst : (step s (.commit strict)).1 = { commitLoop commitKeys s with cache := none } := by
@@ -166,11 +200,9 @@ theorem C17_commit_appends_one (s : State) (strict : Bool) (h : Inv s)
     · exact derefList_ext hfr hlist
     · exact e3
 
-/-- append-only: for every operation other than `update_from_dict` (which replaces history by design), including any
-    in-place write by the caller to an array that did not enter history through `update_from_dict` (so also arrays it
-    passed with `copy=False`), the old history of every key — as payloads — is a prefix of the new one -/
+/-- append-only: for every operation other than `update_from_dict` (which replaces history by design), including ANY
+    in-place write by the caller, the old history of every key — as payloads — is a prefix of the new one -/
 theorem C17_history_prefix_stable (s : State) (o : Op) (h : Inv s) (hni : o.isImport = false)
-    (hscr : ∀ a p, o = .scribble a p → a ∉ s.importedH)
     (k : Key) (l : List Val) (hl : lookup k s.history = some l) :
     ∃ l' : List Val, lookup k (step s o).1.history = some l' ∧
       l.map (deref s.heap) <+: l'.map (deref (step s o).1.heap) := by
@@ -184,7 +216,7 @@ theorem C17_history_prefix_stable (s : State) (o : Op) (h : Inv s) (hni : o.isIm
       by_cases hm : a ∈ s.escaped
       · have hst : (step s (.scribble a p)).1 = poke s a (some p) := by simp [step, hm, poke]
         have hnot : a ∉ listAddrs l := fun hb =>
-          hscr a p rfl (hI.sepH a (Or.inl (mem_histAddrs.2 ⟨k, l, lookup_mem hl, mem_listAddrs.1 hb⟩)) hm)
+          hI.sepH a (Or.inl (mem_histAddrs.2 ⟨k, l, lookup_mem hl, mem_listAddrs.1 hb⟩)) hm
         rw [hst]
         exact ⟨l, hl, by simp only [poke, derefList_set hnot]; exact List.prefix_refl _⟩
       · have hst : (step s (.scribble a p)).1 = s := by simp [step, hm]
